@@ -71,6 +71,8 @@ pub struct RProbe {
     pub id: u32,
     /// start of the (empty) span at the probe's cursor, in the kind's own offsets
     pub off: usize,
+    /// end of that empty span
+    pub off_end: usize,
     pub n: u64,
     pub h: u64,
     pub ctx: Val,
